@@ -21,6 +21,9 @@ def run(v, tier):
     for i in range(10 if quick else 100):     # proofs that need a top-level $d between DUMMY variables
         text, lemmas = mmgen.dummy_database(random.Random(rng.random()), zmode=rng.choice(['none', 'all']))
         reqs.append({'cmd': 'mmdb', 'text': text, 'lemmas': lemmas})
+    for i in range(6 if quick else 60):      # a constant that occurs only inside doubly nested axiom blocks
+        text, lemmas = mmgen.nested_constant_database(random.Random(rng.random()), zmode=rng.choice(['none', 'all']))
+        reqs.append({'cmd': 'mmdb', 'text': text, 'lemmas': lemmas})
     # history: a database in which a token is a CONSTANT, handled after a database in which the same token is a VARIABLE
     # (the parse must be a function of the text alone); its fresh parse comes from a process that has seen nothing else
     def retoken(text, ren):
